@@ -735,6 +735,8 @@ class Func:
         self.ann = None
         self.fail = None
         self.a1 = {}                 # statistics on A1 reliance
+        self.flow_targets = set()    # addresses reached by a jump or by falling through (not by call)
+        self.entry_is_flow_target = False
 
 
 def is_code_sym(s, ob):
@@ -750,6 +752,10 @@ def build_functions(ob):
         if is_code_sym(s, ob) and (s['sec'], s['addr']) in insns:
             by_addr[(s['sec'], s['addr'])].append(s)
     globals_by_name = {s['name']: s for s in ob.syms if s['bind'] in ('GLOBAL', 'WEAK') and s['sec'] is not None}
+    for s in ob.syms:
+        if s['bind'] in ('GLOBAL', 'WEAK') and s['sec'] in ob.code_secs and s['type'] not in ('FUNC', 'NOTYPE'):
+            raise T5Error('%s: global symbol %s of type %s in executable section %s: cannot tell code from data'
+                          % (ob.name, s['name'], s['type'], s['sec']))
     entries = OrderedDict()   # (sec, addr) -> (name, is_global)
     for key, lst in sorted(by_addr.items()):
         gl = [s for s in lst if s['bind'] in ('GLOBAL', 'WEAK')]
@@ -858,6 +864,7 @@ def build_functions(ob):
                 leaders.add(ins.next)
                 termx = ('jcc', term[1], ins.next)
             decoded[a] = (ps2, termx, ins.next)
+            f.flow_targets.update(succ)
             stack.extend(succ)
         # blocks
         for a in sorted(seen):
@@ -892,6 +899,14 @@ def build_functions(ob):
             b.id = i + 1
         f.n_insns = len(seen)
         funcs.append(f)
+    # entries that are also reached by a jump / fall-through from some function of this object
+    # (the K4 tracer must not treat the stack top as a return address there)
+    flow = defaultdict(set)
+    for f in funcs:
+        flow[f.sec] |= f.flow_targets
+    for f in funcs:
+        f.entry_is_flow_target = f.addr in flow[f.sec]
+        f.flow_targets = None
     return funcs
 
 
@@ -1685,22 +1700,13 @@ def emit_all_file(objs):
 
 def emit_top_props(objs):
     L = ['(* Generated by translators/t5_cfg.py -- do not edit. *)',
-         '(** Property C18: every function of the hand-written objects that C code can call obeys the',
-         '    System V x86-64 calling convention on every terminating path (model: X86/Frame.v,',
-         '    trusted base: X86/C18_NOTES.md). *)',
+         '(** Property C18, whole library: every function of the hand-written objects that C code can call',
+         '    obeys the System V x86-64 calling convention on every terminating path (model: X86/Frame.v,',
+         '    trusted base: X86/C18_NOTES.md).  The generic soundness theorem is in Props/Properties_C18.v. *)',
          'From Coq Require Import ZArith List Bool String.',
          'From IMB Require Import X86.Frame X86.FrameCheck X86.FrameSound Gen.GenCfgAll.']
     for ob in objs:
         L.append('From IMB Require Props.Properties_C18_%s.' % ob.ident)
-    L.append('')
-    L.append('(** the validator is sound (proved once, for every program) *)')
-    L.append('Theorem c18_frame_check_sound :')
-    L.append('  forall P : list fdef, prog_ok P = true ->')
-    L.append('  forall d, In d P -> forall c r, cdf c = false ->')
-    L.append('  exec (code_of P) (d_fn d) c r ->')
-    L.append('  post (cr c) (cm c) (cmx c) (d_sum d) (fst r) (snd r).')
-    L.append('Proof. exact frame_check_sound. Qed.')
-    L.append('Print Assumptions c18_frame_check_sound.')
     L.append('')
     L.append('(** every function of every object validates (one vm_compute theorem per object) *)')
     L.append('Theorem c18_all_checked : forallb fdef_ok all_defs = true.')
@@ -1719,6 +1725,7 @@ def emit_top_props(objs):
     L.append('')
     L.append('Theorem c18_prog_ok : prog_ok all_defs = true.')
     L.append('Proof. unfold prog_ok. rewrite c18_all_checked, c18_link. reflexivity. Qed.')
+    L.append('Print Assumptions c18_prog_ok.')
     L.append('')
     L.append('(** the property *)')
     L.append('Theorem c18_calling_convention :')
@@ -1767,11 +1774,12 @@ def main():
         if write_if_changed(os.path.join(props, q), emit_props(ob)):
             changed.append(q)
     keep_gen.add('GenCfgAll.v')
-    keep_props.add('Properties_C18.v')
+    keep_props.add('Properties_C18.v')          # hand written: generic soundness statement
+    keep_props.add('Properties_C18_All.v')
     if write_if_changed(os.path.join(a.out, 'GenCfgAll.v'), emit_all_file(objs)):
         changed.append('GenCfgAll.v')
-    if write_if_changed(os.path.join(props, 'Properties_C18.v'), emit_top_props(objs)):
-        changed.append('Properties_C18.v')
+    if write_if_changed(os.path.join(props, 'Properties_C18_All.v'), emit_top_props(objs)):
+        changed.append('Properties_C18_All.v')
     # remove stale generated files (objects that no longer exist)
     removed = []
     for d, keep, pat in ((a.out, keep_gen, re.compile(r'^GenCfg(_.*|All)\.(v|vo|vok|vos|glob)$')),
@@ -1795,7 +1803,8 @@ def main():
             ent = {'name': f.name, 'addr': f.addr, 'global': f.is_global, 'c_reachable': f.c_reachable,
                    'insns': f.n_insns, 'blocks': len(f.blocks),
                    'preserved': [GPR64[r] for r in range(16) if f.required[0] >> r & 1],
-                   'mxcsr_kept': f.required[1], 'calls': sorted(f.calls), 'a1': f.a1}
+                   'mxcsr_kept': f.required[1], 'calls': sorted(f.calls), 'a1': f.a1,
+                   'entry_is_flow_target': f.entry_is_flow_target}
             if f.check:
                 fail = dict(f.check)
                 fail['object'] = ob.name
